@@ -525,6 +525,11 @@ def _run(ctx, scratch):
     ctx.require("monitor.mutation_independence", 200)
     ctx.require("monitor.equality", 300)
     ctx.require("monitor.views", 100)
+    if ctx.thorough and ctx.shard == 0:
+        # extra workload: the repository's own tests with fingerprints taken around every outermost read-only call
+        from .. import repotests
+
+        repotests.run_under(ctx, ["purity"])
     # fixed: the html-root document with attribute arguments
     fixed = {"root": ("doc", {"content": [gen.TAG("html", gen.TAG("body", {"k": "text", "s": "b"}, via_fn=False), via_fn=False)], "kw": {"lang": "en"}}),
              "ops": ["render", "render", "save_html", "render(lib_prefix=None)"]}
